@@ -412,6 +412,26 @@ func run(c *core.Ctx) {
 				}
 			}
 		}
+		if c.Tier == "thorough" {
+			// every ordered pair of different children that are accepted alone: accepted together in
+			// both orders (or rejected in both), and filed correctly
+			var okKids []string
+			for _, k := range K {
+				if meta(k) {
+					continue
+				}
+				if _, acc := check(Input{Text: render(chain, stmt(k, "y", 0))}); acc {
+					okKids = append(okKids, k)
+				}
+			}
+			for _, k1 := range okKids {
+				for _, k2 := range okKids {
+					if k1 != k2 {
+						one(Input{Text: render(chain, stmt(k1, "y1", 0)+" "+stmt(k2, "y2", 0)+" "+stmt(k1, "y3", 0))})
+					}
+				}
+			}
+		}
 		// the context's own mandatory substatements omitted / duplicated
 		last := chain[len(chain)-1]
 		if n := len(need[last]); n > 0 && len(chain) == 1 {
